@@ -807,7 +807,11 @@ impl Generator {
                 // NEXT_BUFFER pushes a buffer object to the stack
                 self.push(StackObject::Bytes(Vec::new())); // Use empty bytes as placeholder
             }
-            Proto | ReadOnlyBuffer | Stop | Frame => {
+            Stop => {
+                // STOP pops the finished object off the stack and ends the program
+                self.pop();
+            }
+            Proto | ReadOnlyBuffer | Frame => {
                 // these opcodes don't manipulate the stack, but we're being
                 // explicit about it so that we know we've covered all opcodes
             }
